@@ -63,6 +63,22 @@ EXTRA2={
 "C19": " Flat-schedule harnesses (which also execute once more after the change completed), contract destinations without attached call.",
 "C20": " Keys with the prefix at every pair of positions, byte pairs summing to a multiple of 256, spare capacity of merged-in transfer lists observed, storage updates with empty data."
 }
+EXTRA3={
+"C01": " Calls naming the NFT-versus-NFT alias of a two-byte nonce (token S||01, nonce 1 against (S,257)) after the scripted history (exposed D11).",
+"C02": " A contract that holds the fungible token and burns it (plain / asynchronous).",
+"C05": " ESDTFreeze / ESDTUnFreeze of a single held NFT (token||nonce) in the frame menu.",
+"C08": " A 'freeze-cycle' profile: single-NFT freeze toggles between the hops (no control call alters metadata).",
+"C10": " Hand-over of a never-used create role (counter 0 = empty last argument).",
+"C11": " Every transfer class also under an oracle answering 'not payable' without an error.",
+"C12": " Typed builder elements (Byte, Str, Int, Int64, Bool, BigInt, composite helpers, GetLast / ToBytes): every sequence of <= 3 appends parsed back and compared with the documented values.",
+"C13": " A contract's burn / transfers with non-minimal amounts.",
+"C14": " One holder decoded into repeatedly (Reset + Unmarshal): every ordered pair of a spread of values of each message type.",
+"C15": " Single-NFT freeze toggles on held NFTs.",
+"C17": " A result that is neither Ok nor an error after a failed dependency is a violation too.",
+"C19": " Four-thread one-operation families (container; Counter / Flag) at preemption bound 1 (thorough 2); every draining program also from an initially empty container; the free-running pass runs under a time limit and a hang is reported.",
+}
+for k,v in EXTRA3.items():
+    EXTRA2[k]=EXTRA2.get(k,"")+v
 for k,v in EXTRA2.items():
     EXTRA[k]=EXTRA.get(k,"")+v
 for k,v in EXTRA.items():
